@@ -13,10 +13,12 @@ def versions_for(case):
 def op_args(case):
     if "spec" in case:
         return {"spec": case["spec"]}
-    c = {k: v for k, v in case.items() if k not in ("min_version", "recipe")}
+    c = {k: v for k, v in case.items() if k not in ("min_version", "recipe", "poison")}
     a = {"case": c}
     if case.get("recipe"):
         a["recipe"] = case["recipe"]
+    if case.get("poison"):
+        a["poison"] = True
     return a
 
 
@@ -33,7 +35,7 @@ def dense_strategy(tier):
     from hypothesis import strategies as st
     import gen_codedata
     from checks import c06
-    progs = strategy(tier)
+    progs = st.tuples(strategy(tier), st.integers(0, 3)).map(lambda t: dict(t[0], poison=True) if t[1] == 0 else t[0])
     variants = st.tuples(gen_source.programs(max_size=25, modes=("exec",), mix=(80, 0, 20)), c06.RECIPE).map(
         lambda t: dict(t[0], recipe=t[1], _label="rasm_variant"))
     built = gen_codedata.codedata_specs(big=False).map(lambda s: {"spec": s, "_label": "hand_built_encoding"})
@@ -45,6 +47,19 @@ def strategy(tier, **kw):
     if tier == "thorough":
         return gen_source.programs(max_size=kw.pop("max_size", 60), **kw)
     return gen_source.programs(max_size=kw.pop("max_size", 30), **kw)
+
+
+def fixed_cases_dense(tier):
+    # C02 / C13: the quick tier also gets the two smallest programs with a 3-unit jump operand
+    cases = fixed_cases(tier)
+    # hand-built encodings whose jumps need a 3-unit operand (byte offset > 65535 on <=3.9,
+    # instruction index > 65535 on 3.10)
+    for n in (32800, 65600):
+        cases.append({"spec": {"fn": None, "freevars": [], "first_line": 1, "stacksize": 1, "min_version": 7,
+                               "blocks": [[["jabs", 2, 1, 0], ["jrel", 2, 1, 0]], [["FILL", "noarg", 0, n, 2]], [["jabs", 1, 3, 0], ["noarg", None, 3, 2]]]},
+                      "_label": "hand_built_wide_jump"})
+    cases += [dict(c, poison=True) for c in gen_source.example_cases()[:40:4]]
+    return cases
 
 
 def fixed_cases(tier):
